@@ -49,7 +49,12 @@ class MethodDescriptor(metaclass=ABCMeta):
 
     def __get__(self, instance: Any, spec_cls: Type = None) -> Callable:
         if self.dissolve:
-            setattr(spec_cls, self.name, self.method)
+            # Replace this descriptor (and only this descriptor) on the class
+            # that hosts it; `spec_cls` may be a subclass that overrides the
+            # method and reached us via `super()`.
+            owner = self.spec_cls if self.spec_cls is not None else spec_cls
+            if owner.__dict__.get(self.name) is self:
+                setattr(owner, self.name, self.method)
         if instance is not None:
             return types.MethodType(self.method, instance)
         return self.method
